@@ -38,6 +38,8 @@ def main():
                 demos.append(os.path.relpath(os.path.join(root, f), d))
     demo_cmd = open(os.path.join(d, "demo.txt")).read().strip().splitlines()
     demo_cmd = [l for l in demo_cmd if l.strip() and not l.strip().startswith("#")]
+    import re as _re0
+    demo_cmd = [_re0.sub(r"/tmp/seed\d*-%s\b" % pid, WT, l) for l in demo_cmd]      # the author's own worktree -> the evaluation worktree
     report = {"seed": sid, "property": pid}
     if "--skip-confirm" not in args:
         # place demo files: they name their own location in demo.txt / meta; try meta["demo_path"] or search for package clause
